@@ -58,7 +58,7 @@ func plan(unknown int, callers ...int) *rig.MuxPlan {
 func main() {
 	ev.Supervise("C06", ev.ArgTier(), "exploration", "the monitor runs in a child process; a panic or runtime fatal error on a goroutine of the library (inbound reader, dispatch) ends every in-flight request and is a violation attributed to the first library frame of the dying goroutine")
 	run := ev.New("C06", ev.ArgTier(), "exploration")
-	run.Rule("(a) enforced schedules over plans with up to 4 duplicates per op id, late frames for timed-out callers and never-issued ids: all interleavings (or a seeded sample when the DFS exceeds its bound) of lookup / delivery with the callers' receive / timeout / unregister+return steps, callers held after their receive so that their registration outlives several duplicates; after every schedule a fresh request must be answered; (b) hook-free stress: up to 64 concurrent callers, up to 4 back-to-back duplicates written in one burst. Verdict is logical: send.begin(opid) without send.end(opid) while the only possible receiver is past its receive. distinct = distinct (leg, plan, schedule) strings + stress shapes")
+	run.Rule("(a) enforced schedules over plans with up to 4 duplicates per op id, late frames for timed-out callers and never-issued ids: all interleavings (or a seeded sample when the DFS exceeds its bound) of lookup / delivery with the callers' receive / timeout / unregister+return steps, callers held after their receive so that their registration outlives several duplicates; after every schedule a fresh request must be answered; (b) hook-free stress: up to 64 concurrent callers, up to 4 back-to-back duplicates written in one burst. Verdict is logical: send.begin(opid) without send.end(opid) while the only possible receiver is past its receive. (c) well-formed responses fed as an arbitrary byte stream; (d) requesters held up at every access to their FContext until the wire has settled (and by a busy registry) against a responder that answers at once: a response handled by the reader as unknown while its request is on the wire and its caller waits is a lost response; (e) the send of one request fails for a reason of its own (refused payload, own deadline inside Flush, request-specific Flush error; nothing of it reaches the wire) while others are in flight on a healthy connection: their responses, fed after the failed send ended, and a fresh request must complete. distinct = distinct (leg, plan, schedule) strings + stress / trial shapes")
 	run.Assume("yield points compiled in with -tags verif do not change behaviour when no goroutine is parked")
 	type cfg struct {
 		p     *rig.MuxPlan
@@ -300,7 +300,128 @@ func main() {
 			}
 		}
 	}
+	heldUp(run, nats)
+	sendFailures(run)
 	os.Exit(run.Finish())
+}
+
+// heldUp is leg (d): requesters that are held up at every access to their
+// FContext (and, where the tree has the hook, by a busy registry) while the
+// responder answers at once.
+func heldUp(run *ev.Run, nats *rig.NatsServer) {
+	reps, sizes := 1, []int{1, 2, 4}
+	if run.Thorough() {
+		reps, sizes = 6, []int{1, 2, 4, 8, 16}
+	}
+	trials, gates := 0, 0
+	lost := map[string]bool{}
+	for _, legName := range []string{"adapter", "nats"} {
+	legLoop:
+		for r := 0; r < reps; r++ {
+			for _, n := range sizes {
+				var leg promptLeg
+				if legName == "adapter" {
+					leg = newAdapterPrompt()
+				} else {
+					leg = newNatsPrompt(nats)
+				}
+				hr := heldUpTrial(leg, n)
+				run.Eval(1)
+				trials++
+				gates += hr.gates
+				switch {
+				case hr.bad != "":
+					lost[legName] = true
+					run.Violation("C06:held-up-requester:"+legName+":"+hr.cls, hr.bad, hr.witness)
+					break legLoop
+				case hr.inconclusive != "":
+					run.Inconclusive("held-up requester trial (" + legName + "): " + hr.inconclusive)
+				case hr.correlation != "":
+					run.Add("held_up_trials_with_a_correlation_failure_(see_C01)", 1)
+				default:
+					run.Distinct(fmt.Sprintf("held-up %s callers=%d", legName, n))
+				}
+			}
+		}
+	}
+	run.Set("held_up_requester_trials", trials)
+	run.Set("held_up_context_accesses_settled", gates)
+	// the registry is busy (its lock is held by somebody else) when the request
+	// is issued and while its response arrives
+	for _, legName := range []string{"adapter", "nats"} {
+		if lost[legName] {
+			continue // already established on this leg; the trial costs 20 s on a tree that loses the response
+		}
+		seen := make(chan uint64, 16)
+		onReq := func(frame []byte) {
+			if op, ok := opidOfFrame(frame); ok {
+				select {
+				case seen <- op:
+				default:
+				}
+			}
+		}
+		var leg rig.MuxLeg
+		if legName == "adapter" {
+			a := rig.NewAdapterLeg()
+			a.St.OnFrame = onReq
+			leg = a
+		} else {
+			nl := rig.NewNatsLeg(nats)
+			nl.OnRequest = func(_ string, f []byte) { onReq(f) }
+			leg = nl
+		}
+		bad, inc, skipped := rig.RegistryBusyTrial(leg, seen)
+		run.Eval(1)
+		switch {
+		case skipped:
+			run.Set("registry_busy_trial", "skipped: the tree under test has no VerifLockRegistry hook")
+		case bad != "":
+			run.Violation("C06:registry-busy:"+legName+":response-lost", bad, nil)
+		case inc != "":
+			run.Inconclusive("registry-busy trial: " + inc)
+		default:
+			run.Distinct("registry-busy " + legName)
+		}
+	}
+}
+
+// sendFailures is leg (e): the send of one request fails, for a reason that
+// concerns that request only, while others are in flight.  One trial at a time
+// (the end of the failed send is read off a goroutine dump).
+func sendFailures(run *ev.Run) {
+	shapes := [][2]int{{1, 0}, {3, 1}}
+	reps := 1
+	if run.Thorough() {
+		shapes = [][2]int{{1, 0}, {2, 0}, {3, 1}, {8, 3}, {16, 8}}
+		reps = 4
+	}
+	trials := 0
+	for _, mode := range []string{"write-refused", "flush-deadline", "flush-error"} {
+	modeLoop:
+		for r := 0; r < reps; r++ {
+			for _, oneway := range []bool{false, true} {
+				for _, sh := range shapes {
+					sp := sendFailSpec{mode: mode, oneway: oneway, others: sh[0], answeredBefore: sh[1]}
+					sr := sendFailureTrial(sp)
+					run.Eval(1)
+					trials++
+					switch {
+					case sr.bad != "":
+						run.Violation("C06:send-failure-of-another-request:adapter:"+mode+":"+sr.cls, sr.bad, sr.witness)
+						break modeLoop
+					case sr.inconclusive != "":
+						run.Inconclusive("send-failure trial: " + sr.inconclusive)
+					case sr.correlation != "":
+						run.Add("send_failure_trials_with_a_correlation_failure_(see_C01)", 1)
+					default:
+						run.Distinct("send-failure " + sp.String())
+					}
+				}
+			}
+		}
+	}
+	run.Set("send_failure_trials", trials)
 }
 
 // fragments is leg (c): well-formed responses handed over as an arbitrary
